@@ -88,11 +88,12 @@ def unit(case):
         # integer-typed inputs (YAML 'wind_speed: 2', 'wind_dir: 200'): same result as the float-typed call
         for _ in range(60):
             si, di = int(rng.integers(1, 15)), int(rng.integers(0, 360))
-            for cast in (int, np.int64, np.int32):
+            for cast in (int, np.int64, np.int32, np.uint16, np.uint32, np.uint64):
                 u, v = fn(cast(si), cast(di))
                 n += 1
                 eu, ev = -si * math.sin(math.radians(di)), -si * math.cos(math.radians(di))
-                if max(abs(float(u) - eu), abs(float(v) - ev)) > 1e-12 * si:
+                # numpy promotes 16-bit integers to float32: storage rounding of single precision is not a convention error
+                if max(abs(float(u) - eu), abs(float(v) - ev)) > (1e-12 if cast is not np.uint16 else 1e-6) * si:
                     viol.append({"what": "wind_decomposition", "form": f"integer-typed ({cast.__name__})", "speed": si, "wind_dir": di,
                                  "got": (float(u), float(v)), "expected": (eu, ev)})
         # arrays
@@ -124,6 +125,9 @@ def e2e(case):
     xmax, ymax = nx * dx, ny * dy
     xt, yt = (nx // 2) * dx, (ny // 2) * dy
     ref_lat, ref_lon = float(rng.uniform(-60, 60)), float(rng.uniform(-179, 179))
+    if case["idx"] % 6 == 4:
+        # reference origin a few metres west of the Greenwich meridian / of the antimeridian, or exactly on them: the tower lies across
+        ref_lon = float(rng.choice([-10 ** rng.uniform(-6, -3.5), 180.0 - 10 ** rng.uniform(-6, -3.5), 0.0, 180.0, -180.0]))
     R = 6_371_000.0
     lat = ref_lat + math.degrees(yt / R)
     lon = ref_lon + math.degrees(xt / (R * math.cos(math.radians(ref_lat))))
